@@ -889,6 +889,13 @@ def bitop(I: Interp, op: ast.operator, x: Any, y: Any, xc: int | None, yc: int |
                     s, w = sh
                     # x & ~m == x - (x & m)   (two's complement, any int x)
                     return x - ((x / (2 ** s)) % (2 ** w)) * (2 ** s)
+        if xc is None and yc is None and I.entails(z3.And(x >= 0, y >= 0)):
+            # two symbolic non-negative ints: abstracted by the bounds 0 <= x & y <= min(x, y)
+            r = z3.Int(I.fresh_name("band"))
+            I.assume(z3.And(r >= 0, r <= x, r <= y))
+            I.ex.assumptions.add("x & y of two symbolic non-negative ints is abstracted by "
+                                 "0 <= x & y <= min(x, y)")
+            return r
         raise Unsupported("x & y with non-mask operand")
     if isinstance(op, ast.BitOr):
         # a | b == a + b when the operands have no common set bit: proved as a side obligation
